@@ -210,3 +210,124 @@ def ret_expr(body, depth=14):
     if si == "term":
         return body.expr_of_call(rv, depth, body.local_ty(0))
     return body.expr_of_rvalue(rv, depth)
+
+
+# ------------------------------------------------------------------------------------------
+# flow-sensitive evaluation of one CFG path of a small function (locals and `(*arg).field` places)
+
+def _place_key(p):
+    proj = []
+    for e in p["proj"]:
+        if e == "deref":
+            proj.append("*")
+        elif isinstance(e, dict) and "f" in e:
+            proj.append("." + str(e.get("name", e["f"])))
+        else:
+            raise Unanalysable("place projection %r" % (e,))
+    return (p["l"], tuple(proj))
+
+
+def _ty_of_place(body, p):
+    if not p["proj"]:
+        return body.local_ty(p["l"])
+    last = p["proj"][-1]
+    if isinstance(last, dict) and "ty" in last:
+        return last["ty"]
+    raise Unanalysable("type of place")
+
+
+def exec_path(body, path, env):
+    """env: {place key: BV}.  Executes the statements and calls of the blocks in `path` (a list of
+    block indices forming a CFG path) and returns the final env.  Supported calls: From<bool|u8>
+    for u16 (zero extension).  SwitchInt terminators are passed through (the caller chose the path)."""
+    def rd_op(op):
+        if op["k"] == "const":
+            if op.get("ty") == "()":
+                return ("unit",)
+            if "val" not in op or op["ty"] not in WIDTH:
+                raise Unanalysable("constant operand of type %s" % op.get("ty"))
+            return BV.const(op["val"], op["ty"])
+        k = _place_key(op["p"])
+        if k not in env:
+            raise Unanalysable("read of unbound place %r" % (k,))
+        return env[k]
+    for bi in path:
+        blk = body.blocks[bi]
+        for s in blk["stmts"]:
+            if s["k"] != "assign":
+                continue
+            rv = s["rv"]
+            k = rv["k"]
+            dst = _place_key(s["p"])
+            if k == "use":
+                env[dst] = rd_op(rv["op"])
+            elif k == "bin":
+                a, b2 = rd_op(rv["l"]), rd_op(rv["r"])
+                op = rv["op"]
+                if not isinstance(a, BV) or not isinstance(b2, BV):
+                    env[dst] = BV(["?"], False) if op in ("Eq", "Ne", "Lt", "Le", "Gt", "Ge") else ("opaque",)
+                    continue
+                wo = op.endswith("WithOverflow")
+                if wo:
+                    op = op[: -len("WithOverflow")]
+                fake = ("bin", op, ("var", "_a", None), ("var", "_b", None), rv.get("lty"))
+                if op in ("Eq", "Ne", "Lt", "Le", "Gt", "Ge"):
+                    if a.is_const() and b2.is_const():
+                        x, y = a.to_int(), b2.to_int()
+                        r = {"Eq": x == y, "Ne": x != y, "Lt": x < y, "Le": x <= y, "Gt": x > y, "Ge": x >= y}[op]
+                        env[dst] = BV.const(int(r), "bool")
+                    else:
+                        env[dst] = BV(["?"], False)
+                    env[dst + ("cmp",)] = (op, a, b2)
+                else:
+                    r = _arith(op, fake, {"_a": a, "_b": b2})
+                    if wo:
+                        env[(dst[0], dst[1] + (".0",))] = r
+                        env[(dst[0], dst[1] + (".1",))] = BV.const(0, "bool")
+                    else:
+                        env[dst] = r
+            elif k == "un":
+                v = rd_op(rv["x"])
+                if rv["op"] == "Not":
+                    env[dst] = BV([_not(b3) for b3 in v.bits], v.signed)
+                else:
+                    raise Unanalysable("unary %s" % rv["op"])
+            elif k == "cast":
+                v = rd_op(rv["op"])
+                if rv["ty"] not in WIDTH:
+                    raise Unanalysable("cast to %s" % rv["ty"])
+                env[dst] = v.resize(rv["ty"])
+            elif k in ("ref", "rawptr"):
+                env[dst] = ("ref", _place_key(rv["p"]))
+            else:
+                raise Unanalysable("statement %s" % k)
+        t = blk["term"]
+        if t["k"] == "call":
+            f = t["func"]
+            callee = (f.get("resolved") or {}).get("path") or f.get("fn") or ""
+            dst = _place_key(t["dest"])
+            if "From<" in callee and callee.endswith(">::from") and t["args"]:
+                v = rd_op(t["args"][0])
+                ty = _ty_of_place(body, t["dest"])
+                env[dst] = v.resize(ty)
+            else:
+                env[dst] = ("call", callee, [t["args"]])
+    return env
+
+
+def simple_paths(body, limit=16):
+    """all acyclic CFG paths from block 0 to a return, as block lists (fails when there are more than `limit`)"""
+    out = []
+    st = [[0]]
+    while st:
+        p = st.pop()
+        t = body.blocks[p[-1]]["term"]
+        if t["k"] == "return":
+            out.append(p)
+            if len(out) > limit:
+                raise Unanalysable("too many paths")
+            continue
+        for s in body.succs(p[-1]):
+            if s not in p:
+                st.append(p + [s])
+    return out
